@@ -31,7 +31,8 @@ ASSUMPTIONS = ['exact arithmetic: the model is evaluated over Q / proved over R;
                'Hadamard (curve-wise) differentiability is used as the definition of the Frechet derivative on R^n '
                '(equivalent in finite dimension; the equivalence itself is not formalised); uniqueness and the '
                'central-difference limit are proved from it',
-               'central-difference O(h^2) rate is validated numerically (probes), not proved']
+               'central-difference O(h^2) rate is validated numerically (probes: error ratio per decade of h in the asymptotic '
+               'window), not proved']
 TRUSTED = ['translate/ufunc_deriv.py (Python ast -> Gallina tables), fail-closed',
            'C06/Model.v hand-written mirror of the derivative methods, tied by structural correspondence',
            'harness serialiser of Python operator objects into oexpr terms; the measured variant switch rsv',
@@ -1084,8 +1085,14 @@ def cd_check(op, x, d, rtol=1e-6):
         floors = [1e-11 * scale / h for h in HS]
         tol = rtol * scale + floors[-1] + est
         close = errs[-1] <= tol
-        return bool(close), 'central-difference errors %s at h=%s, scale %.3g, tol %.2e' % (
-            ['%.2e' % e for e in errs], list(HS), scale, tol)
+        # "at the rate expected of a central difference": where the error at h = 1e-3 is in the asymptotic
+        # window (far above the rounding noise, below 1% of the scale) it must shrink by >= 20 per decade
+        # (h^2 gives 100; measured minimum over 10^4 probes: 94)
+        rate = True
+        if 1e-6 * scale < errs[1] < 1e-2 * scale and errs[2] > 0:
+            rate = errs[1] / errs[2] >= 20.0
+        return bool(close and rate), 'central-difference errors %s at h=%s, scale %.3g, tol %.2e%s' % (
+            ['%.2e' % e for e in errs], list(HS), scale, tol, '' if rate else ', error does not shrink like h^2')
 
 
 SPACES = {
